@@ -990,3 +990,8 @@ M('C04', 'decisions-file-in-locale-encoding', APP, '    data = text.encode("utf8
 M('C08', 'output-opened-before-serialising', APP, '        text = nbformat.writes(merged)\n        if not text.endswith("\\n"):\n            text += "\\n"\n        _write_output(mfn, text)\n', '        nbformat.write(merged, mfn)\n', 'R08.16')
 M('C08', 'stdout-notebook-with-raw-non-ascii', APP, '            ensure_ascii=encoding.replace("-", "").replace("_", "") != "utf8")', '            ensure_ascii=False)', 'R08.11')
 T('C08', 'twin-stdout-notebook-always-ascii', APP, '            ensure_ascii=encoding.replace("-", "").replace("_", "") != "utf8")', '            ensure_ascii=True)')
+M('C05', 'strict-comparison-without-nan-clause', GEN, "    if x != x and y != y:\n        # NaN (which Python's json and nbformat read and write) is the one\n        # value that is not equal to itself\n        return True\n", "", 'R05.14')
+T('C05', 'twin-nan-clause-by-isnan', GEN, "    if x != x and y != y:\n", "    import math\n    if isinstance(x, float) and isinstance(y, float) and math.isnan(x) and math.isnan(y):\n")
+M('C11', 'clear-all-removal-of-nothing', STR, "        custom_diff = [op_removerange(0, len(base))] if base else []\n", "        custom_diff = [op_removerange(0, len(base))]\n", 'R11.15')
+T('C11', 'twin-clear-all-guarded-by-statement', STR, "        custom_diff = [op_removerange(0, len(base))] if base else []\n", "        custom_diff = []\n        if len(base) > 0:\n            custom_diff = [op_removerange(0, len(base))]\n")
+M('C11', 'combine-patches-keeps-insertions-apart', STR, "                a.valuelist = a.valuelist + d.valuelist\n", "                newdiffs.append(d)\n", 'R11.14')
